@@ -24,9 +24,14 @@ ASSUMPTIONS = [
     "secrecy is decided functionally (stored bytes equal the reference ciphertext; no secret needle occurs); cryptographic strength of zero-IV CBC is out of scope",
     "encrypted components are compared on the declared length only (stored/returned blob may be zero-padded)",
 ]
-REQUIRED_CLASSES = ["len%16!=0", "trailing00>=1", "all-zero", "framing=bec2", "framing=bf3", "via=set_config", "cipher=unregistered", "cipher=raising", "trailing00>=16", "has-needles", "retry-after-failure", "pre-existing-plain-config"]
+REQUIRED_CLASSES = ["len%16!=0", "trailing00>=1", "all-zero", "framing=bec2", "framing=bf3", "via=set_config", "cipher=unregistered", "cipher=raising", "trailing00>=16", "has-needles", "retry-after-failure", "pre-existing-plain-config", "flag-without-enc-tag"]
 
 ENC_DESC = [(0xC3, b"\x03"), (0xC2, b"\x02"), (0xC1, b"\x03"), (0xC5, b"\x01")]
+# "marked for session-key encryption" is the component's flag; the ENC tag normally accompanies it, but the object model does not tie them:
+# a flagged component WITHOUT the tag (or with another ENC value) must still be stored as ciphertext only (a reader cannot decrypt it
+# by itself, so the read-back clause is judged for the tagged form only)
+DESC_KINDS = {"enc": ENC_DESC, "no-tag": [(0xC3, b"\x03"), (0xC1, b"\x03")], "other-enc-value": [(0xC3, b"\x03"), (0xC2, b"\x01"), (0xC1, b"\x03")],
+              "lookalike": [(0xC2, b"\x00\x02"), (0xC1, b"\x03")], "empty": []}
 
 
 def needles_of(content, public=b""):
@@ -69,7 +74,7 @@ def _build(case):
         claiming = [c for c in f.components if dict(c.description).get(0xC2) == b"\x02"]
         comp = claiming[-1] if claiming else f.components[-1]
     else:
-        comp = sut.Bf3Component(dict(ENC_DESC), case["content"], case.get("actual_len"), encrypt_by_session_key=True)
+        comp = sut.Bf3Component(dict(DESC_KINDS[case.get("desc_kind", "enc")]), case["content"], case.get("actual_len"), encrypt_by_session_key=True)
         f.components.insert(case.get("pos", 0) % (len(plain) + 1), comp)
     return f, comp
 
@@ -169,6 +174,9 @@ def check(case, rec):
     for w in nd:
         if w in binary:
             raise Violation("configuration/content plaintext window %s appears in clear in the written file" % w.hex())
+    if case["via"] == "direct" and case.get("desc_kind", "enc") != "enc":
+        rec.cls("flag-without-enc-tag")
+        return
     # (b) read back
     try:
         g = read(src())
@@ -279,7 +287,8 @@ def _case_common(tier):
 
 def strat(tier):
     mx = 600 if tier == "quick" else 6000
-    direct = st.fixed_dictionaries(dict(via=st.just("direct"), content=S.payload(mx), pos=st.integers(0, 3), **_case_common(tier))).flatmap(
+    direct = st.fixed_dictionaries(dict(via=st.just("direct"), content=S.payload(mx), pos=st.integers(0, 3),
+                                        desc_kind=st.sampled_from(["enc", "enc", "enc", "no-tag", "other-enc-value", "lookalike", "empty"]), **_case_common(tier))).flatmap(
         lambda c: S.actual_len_for(len(c["content"])).map(lambda a: dict(c, actual_len=a)))
     cfg = st.fixed_dictionaries(dict(via=st.just("set_config"), config=S.config_entries(12, 100), pos=st.integers(0, 3),
                                      factory_config=st.one_of(st.none(), st.none(), st.binary(min_size=1, max_size=40)),
